@@ -638,7 +638,7 @@ Section Seq.
     { intros row s1 t H. unfold R in H. unfold take, take', R2, R. simpl fst. simpl snd. split.
       - rewrite !nyields_rows. simpl rows_of. rewrite H. fold r0. simpl length. rewrite app_length.
         destruct (Nat.leb_spec (length r0 + S m) (S (length t + length r0)));
-          destruct (Nat.leb_spec (S m) (S (length t))); auto; lia.
+          destruct (Nat.leb_spec m (length t)); auto; lia.
       - simpl. now rewrite H. }
     destruct (run_sim W D _ R Rev q _ _ Hq Hk s [] eq_refl) as [_ H].
     unfold R in H. rewrite H, each_take' by (simpl; lia). simpl length. now rewrite Nat.sub_0_r, app_nil_r.
